@@ -14,6 +14,7 @@ structure Inv2 (c : Nat) (s : St) : Prop where
   k3 : s.inflight.length ≤ s.workers
   k4 : s.workers ≤ c
   k5 : s.err.isSome → s.once = true
+  k6 : s.tasksClosed = true → s.sending = []
 
 theorem handleErr_fields (s : St) (e : FErr) :
     (handleErr s e).workers = s.workers ∧ (handleErr s e).queue = s.queue ∧
@@ -21,6 +22,11 @@ theorem handleErr_fields (s : St) (e : FErr) :
     ((handleErr s e).once = true) ∧ (s.once = true → (handleErr s e).err = s.err) ∧
     (s.once = false → (handleErr s e).err = some e) ∧ (s.once = true → (handleErr s e) = s) := by
   unfold handleErr; split <;> simp_all
+
+theorem handleErr_sending (s : St) (e : FErr) : (handleErr s e).sending = s.sending := by
+  unfold handleErr; split <;> rfl
+
+theorem setKey_sending (s : St) (k : Key) (d : Option Val) : (setKey s k d).sending = s.sending := rfl
 
 theorem setKey_fields (s : St) (k : Key) (d : Option Val) :
     (setKey s k d).workers = s.workers ∧ (setKey s k d).queue = s.queue ∧
@@ -57,6 +63,20 @@ theorem fetch_fields (s : St) (tx : TxId) (ks : List Key) :
   · simp
   · exact foldl_fetchKey_fields s.nrecs ks (newRec s)
 
+theorem fetchKey_queue (r : Nat) (s : St) (k : Key) : (fetchKey r s k).queue = s.queue := by
+  unfold fetchKey; split <;> rfl
+
+theorem fetch_queue (s : St) (tx : TxId) (ks : List Key) : (fetch s tx ks).1.queue = s.queue := by
+  unfold fetch
+  split
+  · rfl
+  · have : ∀ (ks : List Key) (s0 : St), (ks.foldl (fetchKey s.nrecs) s0).queue = s0.queue := by
+      intro ks
+      induction ks with
+      | nil => intro s0; rfl
+      | cons k ks ih => intro s0; simp only [List.foldl_cons]; rw [ih, fetchKey_queue]
+    exact this ks (newRec s)
+
 theorem fetch_queue_of_err (s : St) (tx : TxId) (ks : List Key) (he : s.err.isSome) :
     (fetch s tx ks).1 = s := by
   simp [fetch, he]
@@ -66,16 +86,17 @@ theorem erase_length_of_mem {k : Key} {l : List Key} (h : k ∈ l) : (l.erase k)
   have : 0 < l.length := List.length_pos_of_mem h
   omega
 
-theorem inv2_step {parent : Key → Rd} {c : Nat} {s s' : St} (h : Inv2 c s) (st : Step parent s s') :
+theorem inv2_step {parent : Key → Rd} {c cap : Nat} {s s' : St} (h : Inv2 c s) (st : Step parent s s') :
     Inv2 c s' := by
-  obtain ⟨k1, k2, k3, k4, k5⟩ := h
+  obtain ⟨k1, k2, k3, k4, k5, k6⟩ := h
   match st with
-  | .fetch _ tx ks hcl =>
+  | .fetch _ tx ks hcl _ =>
     by_cases he : s.err.isSome
-    · rw [fetch_queue_of_err s tx ks he]; exact ⟨k1, k2, k3, k4, k5⟩
+    · rw [fetch_queue_of_err s tx ks he]; exact ⟨k1, k2, k3, k4, k5, k6⟩
     · obtain ⟨f1, f2, f3, f4, f5⟩ := fetch_fields s tx ks
-      generalize (fetch s tx ks).1 = S at f1 f2 f3 f4 f5
-      refine ⟨?_, ?_, ?_, ?_, ?_⟩
+      have fq : (fetch s tx ks).1.queue = s.queue := fetch_queue s tx ks
+      generalize (fetch s tx ks).1 = S at f1 f2 f3 f4 f5 fq
+      refine ⟨?_, ?_, ?_, ?_, ?_, ?_⟩
       · intro hw
         rw [f1] at hw
         rcases k1 hw with h1 | h1
@@ -85,6 +106,27 @@ theorem inv2_step {parent : Key → Rd} {c : Nat} {s s' : St} (h : Inv2 c s) (st
       · rw [f2, f1]; exact k3
       · rw [f1]; exact k4
       · rw [f5, f4]; exact k5
+      · intro ht; rw [f3, hcl] at ht; cases ht
+  | .send _ _ hs =>
+    unfold send at hs
+    split at hs
+    · cases hs
+    next k rest hq =>
+      split at hs
+      · cases hs
+        have hnc : s.tasksClosed ≠ true := by
+          intro ht; have := k6 ht; rw [hq] at this; cases this
+        refine ⟨?_, k2, k3, k4, k5, fun ht => absurd ht hnc⟩
+        intro hw
+        rcases k1 hw with h1 | h1
+        · exact Or.inl h1
+        · exact absurd h1.1 hnc
+      · cases hs
+  | .abort _ _ hs =>
+    unfold abort at hs
+    split at hs
+    · cases hs; exact ⟨k1, k2, k3, k4, k5, fun _ => rfl⟩
+    · cases hs
   | .take _ _ ht =>
     unfold take at ht
     split at ht
@@ -92,7 +134,7 @@ theorem inv2_step {parent : Key → Rd} {c : Nat} {s s' : St} (h : Inv2 c s) (st
     next k q hq =>
       split at ht
       · cases ht
-        refine ⟨?_, k2, by simp; omega, k4, k5⟩
+        refine ⟨?_, k2, by simp; omega, k4, k5, k6⟩
         intro hw
         rcases k1 hw with h1 | h1
         · exact Or.inl h1
@@ -110,13 +152,15 @@ theorem inv2_step {parent : Key → Rd} {c : Nat} {s s' : St} (h : Inv2 c s) (st
         have f := setKey_fields { s with inflight := s.inflight.erase k } k (some v)
         refine ⟨by simpa [f.1, f.2.1, f.2.2.2.1, f.2.2.2.2.2.1] using k1,
           by simpa [f.1, f.2.2.2.2.1, f.2.2.2.2.2.1] using k2, by simp [f.1, f.2.2.1]; omega,
-          by simpa [f.1] using k4, by simpa [f.2.2.2.2.1, f.2.2.2.2.2.1] using k5⟩
+          by simpa [f.1] using k4, by simpa [f.2.2.2.2.1, f.2.2.2.2.2.1] using k5,
+          by simpa [f.2.2.2.1, setKey_sending] using k6⟩
       next hv =>
         cases hc
         have f := setKey_fields { s with inflight := s.inflight.erase k } k none
         refine ⟨by simpa [f.1, f.2.1, f.2.2.2.1, f.2.2.2.2.2.1] using k1,
           by simpa [f.1, f.2.2.2.2.1, f.2.2.2.2.2.1] using k2, by simp [f.1, f.2.2.1]; omega,
-          by simpa [f.1] using k4, by simpa [f.2.2.2.2.1, f.2.2.2.2.2.1] using k5⟩
+          by simpa [f.1] using k4, by simpa [f.2.2.2.2.1, f.2.2.2.2.2.1] using k5,
+          by simpa [f.2.2.2.1, setKey_sending] using k6⟩
       all_goals
         cases hc
         rename_i e0
@@ -135,7 +179,9 @@ theorem inv2_step {parent : Key → Rd} {c : Nat} {s s' : St} (h : Inv2 c s) (st
                rcases k2 (ho1 ▸ ho) with h1 | h1
                · exact h1
                · omega
-           refine ⟨fun _ => Or.inl herr, fun _ => Or.inl herr, ?_, ?_, fun _ => f.2.2.2.2.1⟩
+           have hk6 : (handleErr s1 .read).tasksClosed = true → (handleErr s1 .read).sending = [] := by
+             rw [f.2.2.2.1, handleErr_sending]; subst hs1; exact k6
+           refine ⟨fun _ => Or.inl herr, fun _ => Or.inl herr, ?_, ?_, fun _ => f.2.2.2.2.1, hk6⟩
            · show (handleErr s1 .read).inflight.length ≤ s1.workers - 1
              rw [f.2.2.1, hi1, hw1]; omega
            · show s1.workers - 1 ≤ c
@@ -149,7 +195,9 @@ theorem inv2_step {parent : Key → Rd} {c : Nat} {s s' : St} (h : Inv2 c s) (st
                rcases k2 (ho1 ▸ ho) with h1 | h1
                · exact h1
                · omega
-           refine ⟨fun _ => Or.inl herr, fun _ => Or.inl herr, ?_, ?_, fun _ => f.2.2.2.2.1⟩
+           have hk6 : (handleErr s1 .badValue).tasksClosed = true → (handleErr s1 .badValue).sending = [] := by
+             rw [f.2.2.2.1, handleErr_sending]; subst hs1; exact k6
+           refine ⟨fun _ => Or.inl herr, fun _ => Or.inl herr, ?_, ?_, fun _ => f.2.2.2.2.1, hk6⟩
            · show (handleErr s1 .badValue).inflight.length ≤ s1.workers - 1
              rw [f.2.2.1, hi1, hw1]; omega
            · show s1.workers - 1 ≤ c
@@ -159,7 +207,7 @@ theorem inv2_step {parent : Key → Rd} {c : Nat} {s s' : St} (h : Inv2 c s) (st
     unfold exit at he; split at he
     next hcond =>
       cases he
-      refine ⟨fun _ => hcond.2, ?_, by simp; omega, by simp; omega, k5⟩
+      refine ⟨fun _ => hcond.2, ?_, by simp; omega, by simp; omega, k5, k6⟩
       intro ho
       rcases k2 ho with h1 | h1
       · exact Or.inl h1
@@ -169,45 +217,50 @@ theorem inv2_step {parent : Key → Rd} {c : Nat} {s s' : St} (h : Inv2 c s) (st
     have f := handleErr_fields s .stopped
     unfold stop
     cases ho : s.once with
-    | true => rw [f.2.2.2.2.2.2.2 ho]; exact ⟨k1, k2, k3, k4, k5⟩
+    | true => rw [f.2.2.2.2.2.2.2 ho]; exact ⟨k1, k2, k3, k4, k5, k6⟩
     | false =>
       have herr : (handleErr s .stopped).err.isSome := by rw [f.2.2.2.2.2.2.1 ho]; rfl
       exact ⟨fun _ => Or.inl herr, fun _ => Or.inl herr, by rw [f.2.2.1, f.1]; exact k3,
-        by rw [f.1]; exact k4, fun _ => f.2.2.2.2.1⟩
-  | .waitCall _ =>
-    refine ⟨?_, k2, k3, k4, k5⟩
+        by rw [f.1]; exact k4, fun _ => f.2.2.2.2.1, by rw [f.2.2.2.1, handleErr_sending]; exact k6⟩
+  | .waitCall _ hsd =>
+    refine ⟨?_, k2, k3, k4, k5, fun _ => hsd⟩
     intro hw
     rcases k1 hw with h1 | h1
     · exact Or.inl h1
     · exact Or.inr ⟨rfl, h1.2⟩
   | .waitRet _ _ e hw =>
     unfold waitRet at hw; split at hw
-    next hcond => cases hw; exact ⟨k1, fun _ => Or.inr hcond.1, k3, k4, fun _ => rfl⟩
+    next hcond => cases hw; exact ⟨k1, fun _ => Or.inr hcond.1, k3, k4, fun _ => rfl, k6⟩
     · cases hw
 
-theorem inv2_reach {parent : Key → Rd} {c : Nat} {s : St} (h : Reach parent c s) : Inv2 c s := by
+theorem inv2_reach {parent : Key → Rd} {c cap : Nat} {s : St} (h : Reach parent c cap s) : Inv2 c s := by
   induction h with
-  | init => exact ⟨by simp [init], by simp [init], by simp [init], by simp [init], by simp [init]⟩
-  | step s s' _ st ih => exact inv2_step ih st
+  | init => exact ⟨by simp [init], by simp [init], by simp [init], by simp [init], by simp [init], by simp [init]⟩
+  | step s s' _ st ih => exact inv2_step (cap := cap) ih st
 
 /-- **Reads = declared keys.** In every reachable state the keys requested from the parent view
 are pairwise distinct (each key is read at most once) and each of them was declared by some
-`Fetch` call; keys still queued are declared too; and once nothing is queued every declared key
-has been requested. -/
-theorem requested_keys_eq_declared_union {parent : Key → Rd} {c : Nat} {s : St}
-    (h : Reach parent c s) :
+`Fetch` call; keys still queued are declared too; and once no send is pending, nothing is queued and no error occurred, every
+declared key has been requested. -/
+theorem requested_keys_eq_declared_union {parent : Key → Rd} {c cap : Nat} {s : St}
+    (h : Reach parent c cap s) :
     s.requested.Nodup ∧ (∀ k ∈ s.requested, Declared s k) ∧
-    (s.queue = [] → ∀ k, Declared s k ↔ k ∈ s.requested) := by
+    (s.sending = [] → s.queue = [] → s.err = none → ∀ k, Declared s k ↔ k ∈ s.requested) := by
   have i := inv_reach h
   refine ⟨(List.nodup_append.1 i.nodup).2.1, ?_, ?_⟩
-  · intro k hk; exact (i.decl k).1 ((i.qr k).2 (Or.inr hk))
-  · intro hq k
-    rw [← i.decl k, i.qr k, hq]; simp
+  · intro k hk; exact (i.decl k).1 (i.qr1 k (Or.inr (Or.inr hk)))
+  · intro hs hq he k
+    rw [← i.decl k]
+    constructor
+    · intro hk
+      have := i.qr2 he k hk
+      rw [hs, hq] at this; simpa using this
+    · intro hk; exact i.qr1 k (Or.inr (Or.inr hk))
 
 /-- When `Wait` returns nil (at least one worker configured), the set of keys read from the
 parent is exactly the union of the declared keys. -/
-theorem wait_ok_reads_exactly_declared {parent : Key → Rd} {c : Nat} {s s' : St}
-    (h : Reach parent c s) (hc : 0 < c) (hw : waitRet s = some (s', none)) :
+theorem wait_ok_reads_exactly_declared {parent : Key → Rd} {c cap : Nat} {s s' : St}
+    (h : Reach parent c cap s) (hc : 0 < c) (hw : waitRet s = some (s', none)) :
     ∀ k, Declared s k ↔ k ∈ s.requested := by
   have i2 := inv2_reach h
   unfold waitRet at hw
@@ -218,14 +271,14 @@ theorem wait_ok_reads_exactly_declared {parent : Key → Rd} {c : Nat} {s s' : S
       rcases i2.k1 (by omega) with h1 | h1
       · rw [hw.2] at h1; cases h1
       · exact h1.2
-    exact (requested_keys_eq_declared_union h).2.2 this
+    exact (requested_keys_eq_declared_union h).2.2 (i2.k6 hcond.2) this hw.2
   · cases hw
 
 /-- **Get returns the parent's values.** Whenever `Get(tx)` can return a storage map (built from
 record `r`, the latest `Fetch` with that id), then for every key declared by that `Fetch` the
 parent read succeeded and the map holds exactly the parent's value, or nothing if the parent has
 none. In particular a key whose read fails is never reported as absent. -/
-theorem get_returns_parent_values {parent : Key → Rd} {c : Nat} {s : St} (h : Reach parent c s)
+theorem get_returns_parent_values {parent : Key → Rd} {c cap : Nat} {s : St} (h : Reach parent c cap s)
     (tx : TxId) (r : Nat) (hg : GetRes.vals r ∈ getOutcomes s tx) :
     ∃ rc, s.txs tx = some r ∧ s.recs r = some rc ∧
       ∀ k ∈ rc.keys, ∃ d, parent k = rdOf d ∧ storage s rc.keys k = d := by
@@ -275,7 +328,7 @@ theorem get_returns_parent_values {parent : Key → Rd} {c : Nat} {s : St} (h : 
           cases d <;> rfl
 
 /-- a key whose parent read fails is never part of a successful `Get` -/
-theorem failing_read_never_absence {parent : Key → Rd} {c : Nat} {s : St} (h : Reach parent c s)
+theorem failing_read_never_absence {parent : Key → Rd} {c cap : Nat} {s : St} (h : Reach parent c cap s)
     (tx : TxId) (r : Nat) (hg : GetRes.vals r ∈ getOutcomes s tx) (rc : Rec) (hrc : s.recs r = some rc) :
     ∀ k ∈ rc.keys, parent k ≠ .fail ∧ parent k ≠ .bad := by
   obtain ⟨rc', _, h2, h3⟩ := get_returns_parent_values h tx r hg
@@ -285,11 +338,16 @@ theorem failing_read_never_absence {parent : Key → Rd} {c : Nat} {s : St} (h :
   cases d <;> simp [hd, rdOf]
 
 /-- the error, once set, is never cleared or replaced -/
-theorem error_sticky {parent : Key → Rd} {c : Nat} {s s' : St} (h : Reach parent c s)
+theorem error_sticky {parent : Key → Rd} {c cap : Nat} {s s' : St} (h : Reach parent c cap s)
     (st : Step parent s s') (he : s.err.isSome) : s'.err = s.err := by
   have ho : s.once = true := (inv2_reach h).k5 he
   match st with
-  | .fetch _ tx ks _ => simp [fetch, he]
+  | .fetch _ tx ks _ _ => simp [fetch, he]
+  | .send _ _ hs =>
+    unfold send at hs; split at hs
+    · cases hs
+    · split at hs <;> cases hs; rfl
+  | .abort _ _ hs => unfold abort at hs; split at hs <;> cases hs; rfl
   | .take _ _ ht =>
     unfold take at ht; split at ht
     · cases ht
@@ -304,7 +362,7 @@ theorem error_sticky {parent : Key → Rd} {c : Nat} {s s' : St} (h : Reach pare
     · cases hc
   | .exit _ _ hx => unfold exit at hx; split at hx <;> cases hx; rfl
   | .stop _ => exact (handleErr_fields _ _).2.2.2.2.2.1 ho
-  | .waitCall _ => rfl
+  | .waitCall _ _ => rfl
   | .waitRet _ _ e hw => unfold waitRet at hw; split at hw <;> cases hw; rfl
 
 /-- **A failing read fails the block instead of hanging.** If the parent read of an in-flight key
@@ -312,7 +370,7 @@ fails (read error or a value with too many chunks), then after that step: the fe
 set; no `Get` blocks (each returns the error or — only for a tx all of whose keys had arrived —
 correct values, see `get_returns_parent_values`); every later `Fetch` fails; and `Wait` returns
 that error (`waitRet` returns `s.err`, which is sticky by `error_sticky`). -/
-theorem error_fails_not_hangs {parent : Key → Rd} {c : Nat} {s s' : St} (h : Reach parent c s)
+theorem error_fails_not_hangs {parent : Key → Rd} {c cap : Nat} {s s' : St} (h : Reach parent c cap s)
     (k : Key) (hf : parent k = .fail ∨ parent k = .bad) (hc : complete parent s k = some s') :
     s'.err.isSome ∧ (∀ tx, getOutcomes s' tx ≠ []) ∧ (∀ tx ks, (fetch s' tx ks).2 = false) ∧
     (∀ s'' e, waitRet s' = some (s'', e) → e.isSome) := by
@@ -370,7 +428,7 @@ theorem get_never_blocks_after_error (s : St) (tx : TxId) (he : s.err.isSome) :
 
 /-- **Wait cannot hang.** After `Wait` closed the task channel, as long as a worker is alive some
 worker step is enabled (the parent view answers every read), … -/
-theorem wait_no_deadlock {parent : Key → Rd} {c : Nat} {s : St} (h : Reach parent c s)
+theorem wait_no_deadlock {parent : Key → Rd} {c cap : Nat} {s : St} (h : Reach parent c cap s)
     (hcl : s.tasksClosed = true) (hw : 0 < s.workers) :
     (∃ s', take s = some s') ∨ (∃ k s', complete parent s k = some s') ∨ (∃ s', exit s = some s') := by
   cases hin : s.inflight with
@@ -413,6 +471,81 @@ theorem worker_step_decreases {parent : Key → Rd} {s s' : St} :
     next hcond => cases hx; simp; omega
     · cases hx
 
+/-- **A `Fetch` that is still sending its tasks can never be stuck** (bounded channel, any
+capacity ≥ 1, at least one worker): either the next send is possible, or the fetcher has an error
+and the `select` takes the `stop` branch (`Fetch` returns the error), or some worker can make
+progress (which eventually frees room in the channel). In particular a parent read error that
+occurs while `Fetch` is blocked on a full channel makes `Fetch` return instead of hanging. -/
+theorem fetch_send_never_stuck {parent : Key → Rd} {c cap : Nat} {s : St} (h : Reach parent c cap s)
+    (hc : 0 < c) (hcap : 0 < s.cap) (hs : s.sending ≠ []) :
+    (∃ s', send s = some s') ∨ (∃ s', abort s = some s') ∨
+    (∃ s', take s = some s') ∨ (∃ k s', complete parent s k = some s') := by
+  have i2 := inv2_reach h
+  cases he : s.err with
+  | some e => right; left; exact Option.isSome_iff_exists.1 (by simp [abort, hs, he])
+  | none =>
+    by_cases hroom : s.queue.length < s.cap
+    · left
+      cases hsd : s.sending with
+      | nil => exact absurd hsd hs
+      | cons k rest => exact Option.isSome_iff_exists.1 (by simp [send, hsd, hroom])
+    · have hncl : s.tasksClosed ≠ true := fun ht => hs (i2.k6 ht)
+      have hw : s.workers = c := by
+        rcases Nat.lt_or_ge s.workers c with hlt | hge
+        · rcases i2.k1 hlt with h1 | h1
+          · rw [he] at h1; cases h1
+          · exact absurd h1.1 hncl
+        · have := i2.k4; omega
+      cases hq : s.queue with
+      | nil => rw [hq] at hroom; simp at hroom; omega
+      | cons k q =>
+        by_cases hidle : s.inflight.length < s.workers
+        · right; right; left; exact Option.isSome_iff_exists.1 (by simp [take, hq, hidle])
+        · right; right; right
+          cases hin : s.inflight with
+          | nil => rw [hin] at hidle; simp at hidle; omega
+          | cons j rest =>
+            refine ⟨j, ?_⟩
+            unfold complete
+            simp only [hin, List.mem_cons, true_or, if_true]
+            cases parent j <;> exact ⟨_, rfl⟩
+
+/-- every send / abort of the `Fetch` in progress shortens its list of pending sends -/
+theorem send_step_decreases {s s' : St} (hs : send s = some s' ∨ abort s = some s') :
+    s'.sending.length < s.sending.length := by
+  rcases hs with hs | hs
+  · unfold send at hs; split at hs
+    · cases hs
+    next k rest hq => split at hs <;> cases hs; simp [hq]
+  · unfold abort at hs; split at hs
+    next hcond =>
+      cases hs
+      have := List.length_pos_iff.2 hcond.1
+      simpa using this
+    · cases hs
+
+/-- **Block level (partial).** `Processor.Execute` reads the parent state in exactly two places:
+`createBlockContext` (height, timestamp, fee key, once each) and the fetcher. The keys read from
+the parent while executing a block are therefore the three chain metadata keys followed by the
+fetcher's reads: pairwise distinct and all in `declared ∪ metadata`, provided no transaction
+declares a metadata key (C39/C40 keep the prefixes apart).
+PARTIAL: the clause "each transaction observes the parent's value for a declared key not changed
+earlier in the block" composes `get_returns_parent_values` with the tstate view / executor order
+(properties C04, C01, C08) and is not proved here; it is checked on the real `Processor.Execute`
+by the block-level tie (`tx-observes-wrong-value`). -/
+theorem block_parent_reads_partial {parent : Key → Rd} {c cap : Nat} {s : St} (h : Reach parent c cap s)
+    (mkeys : List Key) (hm : mkeys.Nodup) (hdisj : ∀ k ∈ mkeys, ¬ Declared s k) :
+    (mkeys ++ s.requested).Nodup ∧ ∀ k ∈ mkeys ++ s.requested, k ∈ mkeys ∨ Declared s k := by
+  obtain ⟨h1, h2, _⟩ := requested_keys_eq_declared_union h
+  refine ⟨List.nodup_append.2 ⟨hm, h1, ?_⟩, ?_⟩
+  · intro a ha b hb hab
+    subst hab
+    exact hdisj a ha (h2 a hb)
+  · intro k hk
+    rcases List.mem_append.1 hk with hk | hk
+    · exact Or.inl hk
+    · exact Or.inr (h2 k hk)
+
 /-- `Keys.WithoutPermissions` (repaired) returns exactly the declared keys: no empty key. -/
 theorem withoutPermissions_exact (ks : List (Key × Nat)) (k : Key) :
     k ∈ withoutPermissions ks ↔ ∃ p, (k, p) ∈ ks := by
@@ -423,21 +556,26 @@ theorem withoutPermissions_exact (ks : List (Key × Nat)) (k : Key) :
 def exParent : Key → Rd := fun k => if k = "a" then .val "1" else if k = "b" then .fail else .absent
 
 def ex1 : St := (fetch (init 1) "t" ["a"]).1
-def ex2 : St := (fetch ex1 "t" ["a"]).1
+def ex1s : St := (send ex1).getD ex1
+def ex2 : St := (fetch ex1s "t" ["a"]).1
 def ex3 : St := (take ex2).getD ex2
 def ex4 : St := (complete exParent ex3 "a").getD ex3
 
-example : Reach exParent 1 ex4 ∧ GetRes.vals 1 ∈ getOutcomes ex4 "t" := by
-  have r1 : Reach exParent 1 ex1 := .step _ _ .init (.fetch _ _ _ rfl)
-  have r2 : Reach exParent 1 ex2 := .step _ _ r1 (.fetch _ _ _ rfl)
+example : Reach exParent 1 1000000 ex4 ∧ GetRes.vals 1 ∈ getOutcomes ex4 "t" := by
+  have r1 : Reach exParent 1 1000000 ex1 := .step _ _ .init (.fetch _ _ _ rfl rfl)
+  have h1s : send ex1 = some ex1s := by
+    have : (send ex1).isSome := by decide
+    unfold ex1s; cases h : send ex1 <;> simp_all
+  have r1s : Reach exParent 1 1000000 ex1s := .step _ _ r1 (.send _ _ h1s)
+  have r2 : Reach exParent 1 1000000 ex2 := .step _ _ r1s (.fetch _ _ _ (by decide) (by decide))
   have h3 : take ex2 = some ex3 := by
     have : (take ex2).isSome := by decide
     unfold ex3; cases h : take ex2 <;> simp_all
   have h4 : complete exParent ex3 "a" = some ex4 := by
     have : (complete exParent ex3 "a").isSome := by decide
     unfold ex4; cases h : complete exParent ex3 "a" <;> simp_all
-  have r3 : Reach exParent 1 ex3 := .step _ _ r2 (.take _ _ h3)
-  have r4 : Reach exParent 1 ex4 := .step _ _ r3 (.complete _ "a" _ h4)
+  have r3 : Reach exParent 1 1000000 ex3 := .step _ _ r2 (.take _ _ h3)
+  have r4 : Reach exParent 1 1000000 ex4 := .step _ _ r3 (.complete _ "a" _ h4)
   exact ⟨r4, by decide⟩
 
 end HyperModel.Props.C24
